@@ -401,13 +401,14 @@ func (vfs *OrefaFS) Link(oldname, newname string) error {
 	}
 
 	// oChild is not a directory and nParent is one : they are different nodes.
-	verifYield(&oChild.mu, true)
-	oChild.mu.Lock()
-	defer oChild.mu.Unlock()
-
+	// The directory is locked before the file, as the calls that read a directory do.
 	verifYield(&nParent.mu, true)
 	nParent.mu.Lock()
 	defer nParent.mu.Unlock()
+
+	verifYield(&oChild.mu, true)
+	oChild.mu.Lock()
+	defer oChild.mu.Unlock()
 
 	vfs.nodes[nAbsPath] = oChild
 
@@ -901,14 +902,20 @@ func (vfs *OrefaFS) Rename(oldname, newname string) error {
 		return nil
 	}
 
-	verifYield(&nParent.mu, true)
-	nParent.mu.Lock()
-	defer nParent.mu.Unlock()
+	// A directory is always locked before the directories it contains, as the calls that read a directory do.
+	first, second := nParent, oParent
+	if strings.HasPrefix(nDirName, oDirName) {
+		first, second = oParent, nParent
+	}
 
-	if nParent != oParent {
-		verifYield(&oParent.mu, true)
-		oParent.mu.Lock()
-		defer oParent.mu.Unlock()
+	verifYield(&first.mu, true)
+	first.mu.Lock()
+	defer first.mu.Unlock()
+
+	if second != first {
+		verifYield(&second.mu, true)
+		second.mu.Lock()
+		defer second.mu.Unlock()
 	}
 
 	if nChildOk {
